@@ -188,6 +188,7 @@ typedef struct {
   int nprog; Dop prog[MAXOPS];
   int mu_cls, mu_act, mu_tgt, mu_armed;
   /* calls made from inside the expose (0), focus (1) and geomchange (2) handlers */
+  int br;   /* brackets around the handler's drawing: 1 savepen..restore, 2 save..restore, 4 savepen..restore around every call */
   int nact[4]; struct { char k[3]; int w, t, l, h, c; } act[4][16];   /* 0 expose, 1 focus IN about itself, 2 geomchange, 3 focus IN about a child */
 } HW;
 static HW hw[MAXW];
@@ -271,8 +272,11 @@ static int on_expose(TickitWindow *win, TickitEventFlags flags, void *_info, voi
   LOGF(xlog, xlen, "%s%d:%d,%d,%d,%d", xlen ? ";" : "", id, r.top, r.left, r.lines, r.cols);
   Dop dflt = { 'p', 0, 0, 0, 0 };
   int n = h->nprog ? h->nprog : 1;
+  if(h->br & 1) tickit_renderbuffer_savepen(rb);
+  if(h->br & 2) tickit_renderbuffer_save(rb);
   for(int k = 0; k < n; k++) {
     Dop *o = h->nprog ? &h->prog[k] : &dflt;
+    if(h->br & 4) tickit_renderbuffer_savepen(rb);
     switch(o->k) {
       case 'p':
         for(int l = r.top; l < r.top + r.lines; l++) {
@@ -300,7 +304,10 @@ static int on_expose(TickitWindow *win, TickitEventFlags flags, void *_info, voi
       case 's': tickit_renderbuffer_skip_at(rb, o->a, o->b, o->c); break;
       case 'k': tickit_renderbuffer_clear(rb); break;
     }
+    if(h->br & 4) tickit_renderbuffer_restore(rb);
   }
+  if(h->br & 2) tickit_renderbuffer_restore(rb);
+  if(h->br & 1) tickit_renderbuffer_restore(rb);
   run_actions(h, 0);
   return 1;
 }
@@ -538,6 +545,7 @@ static int run_case(void)
       }
       continue;
     }
+    if(!strcmp(o, "BR")) { if(A(1) >= 0 && A(1) < MAXW) hw[A(1)].br = A(2); i += 3; continue; }
     if(!strcmp(o, "RA") || !strcmp(o, "FA") || !strcmp(o, "GA") || !strcmp(o, "FC")) {
       int kind = o[0] == 'R' ? 0 : o[0] == 'G' ? 2 : o[1] == 'A' ? 1 : 3;
       int id = A(1), n = A(2); i += 3;
